@@ -10,6 +10,7 @@
 import BumpProof.Arena.Step
 import BumpProof.Props.C11
 import BumpProof.Lemmas.CtrlBase
+import BumpProof.Lemmas.CtrlEx
 import BumpProof.Lemmas.CtrlState
 import BumpProof.Lemmas.CtrlPrep
 import BumpProof.Lemmas.CtrlCommit
@@ -184,5 +185,264 @@ theorem step_abandonPrepared (cfg : Cfg) (g : GState) (p : Prepared) (hp : g.s.p
   rw [stepCore]
   simp only [hp]
   rfl
+
+/-! ## Part 3: finalising moves the position to the far end of the final contents -/
+
+/-- position after committing `bytes` bytes at address `a`: the end of the block rounded up to the
+    minimum alignment (upwards) / the start of the block rounded down (downwards) -/
+def commitPos (cfg : Cfg) (m a bytes : Nat) : Nat :=
+  if cfg.up then Spec.upAlign (a + bytes) m else Spec.downAlign a m
+
+/-- at most `minAlign - 1` bytes of padding beyond the contents -/
+theorem commitPos_bounds (cfg : Cfg) (m a bytes : Nat) (hm : 0 < m) :
+    m ∣ commitPos cfg m a bytes ∧
+    (if cfg.up then a + bytes ≤ commitPos cfg m a bytes ∧ commitPos cfg m a bytes < a + bytes + m
+     else commitPos cfg m a bytes ≤ a ∧ a < commitPos cfg m a bytes + m) := by
+  unfold commitPos
+  cases cfg.up
+  · simp only [Bool.false_eq_true, ↓reduceIte]
+    exact ⟨downAlign_dvd a m, downAlign_le a m, lt_downAlign_add a hm⟩
+  · simp only [↓reduceIte]
+    exact ⟨upAlign_dvd _ m, le_upAlign _ hm, upAlign_lt _ hm⟩
+
+/-- address of the finalised slice -/
+def commitAddr (cfg : Cfg) (ptr len cap esize : Nat) (rev : Bool) : Nat :=
+  if rev then (if cfg.up then ptr - cap * esize else ptr - len * esize)
+  else (if cfg.up then ptr else ptr + cap * esize - len * esize)
+
+/-- the observable effect of "some bytes were copied, then the position of the current chunk was set to `q`" -/
+theorem setCurPos_after_copy (cfg : Cfg) {s s1 : State} {i : Nat} {c : Chunk} (hs : SameShape s s1)
+    (hc : CurChunk s i c) (q : Nat) :
+    curPos cfg (setCurPos s1 q) = q ∧ (setCurPos s1 q).cur = s.cur ∧ (setCurPos s1 q).live = s.live ∧
+    ∀ j : Nat, j ≠ i → ((setCurPos s1 q).chunks[j]?).map (·.pos) = (s.chunks[j]?).map (·.pos) := by
+  obtain ⟨c1, hc1, _, _, _⟩ := hs.curChunk hc
+  refine ⟨(hc1.setCurPos q).curPos cfg, ?_, ?_, fun j hj => ?_⟩
+  · rw [setCurPos_cur]; exact hs.cur
+  · rw [setCurPos_live]; exact hs.live
+  · rw [setCurPos_chunk hc1.cur, setPos_get_other (Ne.symm hj)]
+    have := hs.chunks j
+    cases h1 : s1.chunks[j]? <;> cases h2 : s.chunks[j]? <;> rw [h1, h2] at this <;>
+      simp only [Option.map_some, Option.map_none, Option.some.injEq, Prod.mk.injEq, reduceCtorEq] at this ⊢
+    exact this.2.2
+
+/-- `allocate_prepared_slice(_rev)`: the slice ends up at `commitAddr`, and apart from the bytes that
+    are moved there the only change is the position of the current chunk, which becomes `commitPos`:
+    the contents plus at most the padding for the minimum alignment are consumed. -/
+theorem allocatePreparedSlice_effect (cfg : Cfg) (s s' : State) (ptr len cap esize ealign a : Nat) (rev : Bool)
+    (i : Nat) (c : Chunk) (hcur : s.cur = .chunk i) (hget : s.chunks[i]? = some c)
+    (hm : MinAlignOk s.minAlign) (hea : P2 ealign) (hes : ealign ∣ esize) (hp : ealign ∣ ptr)
+    (hlen : len ≤ cap)
+    (hfit : if rev then cap * esize ≤ ptr ∧ ptr + 16 ≤ 2 ^ 64 else ptr + cap * esize + 16 ≤ 2 ^ 64)
+    (hr : allocatePreparedSlice cfg s ptr len cap esize ealign rev = .ok (s', a)) :
+    a = commitAddr cfg ptr len cap esize rev ∧
+    ∃ s1, SameShape s s1 ∧ s' = setCurPos s1 (commitPos cfg s.minAlign a (len * esize)) := by
+  have hle : len * esize ≤ cap * esize := Nat.mul_le_mul_right esize hlen
+  have hd1 : ealign ∣ len * esize := Nat.dvd_trans hes (Nat.dvd_mul_left esize len)
+  have hd2 : ealign ∣ cap * esize := Nat.dvd_trans hes (Nat.dvd_mul_left esize cap)
+  unfold allocatePreparedSlice at hr
+  unfold commitAddr commitPos
+  simp only [hcur] at hr
+  cases rev
+  · simp only [Bool.false_eq_true, ↓reduceIte] at hfit
+    cases hup : cfg.up
+    · -- forward, downwards: copy to the end of the area
+      simp only [hup, Bool.not_false, Bool.false_eq_true, ↓reduceIte] at hr ⊢
+      generalize hcb : copyBytes cfg s ptr _ _ false = x at hr
+      cases x with
+      | error e => cases hr
+      | ok s1 =>
+        have hs := copyBytes_shape hcb
+        have hm1 : MinAlignOk s1.minAlign := by rw [hs.minAlign]; exact hm
+        have hdvd : ealign ∣ ptr + cap * esize - len * esize :=
+          Nat.dvd_sub ((Nat.dvd_add_right hp).2 hd2) hd1
+        simp only [R_ok_bind] at hr
+        rw [setPosAlignFrom_down hup hm1 hea hdvd (by omega)] at hr
+        simp only [R_ok_bind, R_pure_eq, Except.ok.injEq, Prod.mk.injEq] at hr
+        obtain ⟨rfl, rfl⟩ := hr
+        exact ⟨rfl, s1, hs, by rw [hs.minAlign]⟩
+    · -- forward, upwards: nothing to copy
+      simp only [hup, Bool.not_false, ↓reduceIte] at hr ⊢
+      have hdvd : ealign ∣ ptr + len * esize := (Nat.dvd_add_right hp).2 hd1
+      rw [setPosAlignFrom_up hup hm hea hdvd (by omega)] at hr
+      simp only [R_ok_bind, R_pure_eq, Except.ok.injEq, Prod.mk.injEq] at hr
+      obtain ⟨rfl, rfl⟩ := hr
+      exact ⟨rfl, s, SameShape.refl s, rfl⟩
+  · simp only [↓reduceIte] at hfit
+    cases hup : cfg.up
+    · -- rev, downwards: nothing to copy
+      simp only [hup, Bool.not_true, Bool.false_eq_true, ↓reduceIte] at hr ⊢
+      have hdvd : ealign ∣ ptr - len * esize := Nat.dvd_sub hp hd1
+      rw [setPosAlignFrom_down hup hm hea hdvd (by omega)] at hr
+      simp only [R_ok_bind, R_pure_eq, Except.ok.injEq, Prod.mk.injEq] at hr
+      obtain ⟨rfl, rfl⟩ := hr
+      exact ⟨rfl, s, SameShape.refl s, rfl⟩
+    · -- rev, upwards: copy to the start of the area
+      simp only [hup, Bool.not_true, Bool.false_eq_true, ↓reduceIte] at hr ⊢
+      generalize hcb : copyBytes cfg s _ _ _ false = x at hr
+      cases x with
+      | error e => cases hr
+      | ok s1 =>
+        have hs := copyBytes_shape hcb
+        have hm1 : MinAlignOk s1.minAlign := by rw [hs.minAlign]; exact hm
+        have hdvd : ealign ∣ ptr - cap * esize + len * esize :=
+          (Nat.dvd_add_right (Nat.dvd_sub hp hd2)).2 hd1
+        simp only [R_ok_bind] at hr
+        rw [setPosAlignFrom_up hup hm1 hea hdvd (by omega)] at hr
+        simp only [R_ok_bind, R_pure_eq, Except.ok.injEq, Prod.mk.injEq] at hr
+        obtain ⟨rfl, rfl⟩ := hr
+        exact ⟨rfl, s1, hs, by rw [hs.minAlign]⟩
+
+/-- spelled out: after finalising, the position of the current chunk is `commitPos`, i.e. it passed the
+    `len * esize` bytes of contents and less than `minAlign` bytes of padding; every other chunk keeps
+    its position; current chunk and live blocks are the same -/
+theorem allocatePreparedSlice_position (cfg : Cfg) (s s' : State) (ptr len cap esize ealign a : Nat) (rev : Bool)
+    (i : Nat) (c : Chunk) (hcur : s.cur = .chunk i) (hget : s.chunks[i]? = some c)
+    (hm : MinAlignOk s.minAlign) (hea : P2 ealign) (hes : ealign ∣ esize) (hp : ealign ∣ ptr)
+    (hlen : len ≤ cap)
+    (hfit : if rev then cap * esize ≤ ptr ∧ ptr + 16 ≤ 2 ^ 64 else ptr + cap * esize + 16 ≤ 2 ^ 64)
+    (hr : allocatePreparedSlice cfg s ptr len cap esize ealign rev = .ok (s', a)) :
+    curPos cfg s' = commitPos cfg s.minAlign a (len * esize) ∧ s'.cur = s.cur ∧ s'.live = s.live ∧
+    ∀ j : Nat, j ≠ i → (s'.chunks[j]?).map (·.pos) = (s.chunks[j]?).map (·.pos) := by
+  obtain ⟨_, s1, hs, rfl⟩ :=
+    allocatePreparedSlice_effect cfg s s' ptr len cap esize ealign a rev i c hcur hget hm hea hes hp hlen hfit hr
+  exact setCurPos_after_copy cfg hs ⟨hcur, hget⟩ _
+
+/-- `allocate_prepared(_rev)` of the untyped interface: same law -/
+theorem allocatePrepared_effect (cfg : Cfg) (s s' : State) (size rstart rend a : Nat) (rev : Bool)
+    (i : Nat) (hcur : s.cur = .chunk i)
+    (hm : MinAlignOk s.minAlign) (hsz : rstart + size ≤ rend) (hb : rend + 16 ≤ 2 ^ 64)
+    (hr : allocatePrepared cfg s size rstart rend rev = .ok (s', a)) :
+    a = (if cfg.up then rstart else rend - size) ∧
+    ∃ s1, SameShape s s1 ∧ s' = setCurPos s1 (commitPos cfg s.minAlign a size) := by
+  unfold allocatePrepared at hr
+  unfold commitPos
+  simp only [hcur] at hr
+  cases hup : cfg.up
+  · simp only [hup, Bool.false_eq_true, ↓reduceIte] at hr ⊢
+    rw [sub_ok (by omega)] at hr
+    simp only [liftM_ok, R_ok_bind] at hr
+    have key : ∀ s1 : State, SameShape s s1 →
+        (do let p ← Arena.liftM (Gen.LibArith.align_pos false s.minAlign (rend - size))
+            (pure (setCurPos s1 p, rend - size) : R (State × Nat))) = .ok (s', a) →
+        a = rend - size ∧ ∃ s1, SameShape s s1 ∧ s' = setCurPos s1 (Spec.downAlign a s.minAlign) := by
+      intro s1 hs h
+      rw [lib_align_pos_down hm.p2 hm.lt64 (by omega)] at h
+      simp only [liftM_ok, R_ok_bind, R_pure_eq, Except.ok.injEq, Prod.mk.injEq] at h
+      obtain ⟨rfl, rfl⟩ := h
+      exact ⟨rfl, s1, hs, rfl⟩
+    cases rev
+    · simp only [Bool.false_eq_true, ↓reduceIte] at hr
+      generalize hcb : copyBytes cfg s _ _ _ false = x at hr
+      cases x with
+      | error e => cases hr
+      | ok s1 =>
+        simp only [R_ok_bind] at hr
+        exact key s1 (copyBytes_shape hcb) hr
+    · simp only [↓reduceIte, R_pure_bind] at hr
+      exact key s (SameShape.refl s) hr
+  · simp only [hup, ↓reduceIte] at hr ⊢
+    have key : ∀ s1 : State, SameShape s s1 →
+        (do let e ← Arena.liftM (Rs.add rstart size)
+            let p ← Arena.liftM (Gen.LibArith.align_pos true s.minAlign e)
+            (pure (setCurPos s1 p, rstart) : R (State × Nat))) = .ok (s', a) →
+        a = rstart ∧ ∃ s1, SameShape s s1 ∧ s' = setCurPos s1 (Spec.upAlign (a + size) s.minAlign) := by
+      intro s1 hs h
+      have hle := hm.le
+      rw [add_ok' (by omega)] at h
+      simp only [liftM_ok, R_ok_bind] at h
+      rw [lib_align_pos_up hm.p2 hm.lt64 (by omega)] at h
+      simp only [liftM_ok, R_ok_bind, R_pure_eq, Except.ok.injEq, Prod.mk.injEq] at h
+      obtain ⟨rfl, rfl⟩ := h
+      exact ⟨rfl, s1, hs, rfl⟩
+    cases rev
+    · simp only [Bool.false_eq_true, ↓reduceIte, R_pure_bind] at hr
+      exact key s (SameShape.refl s) hr
+    · simp only [↓reduceIte] at hr
+      generalize hcb : copyBytes cfg s _ _ _ false = x at hr
+      cases x with
+      | error e => cases hr
+      | ok s1 =>
+        simp only [R_ok_bind] at hr
+        exact key s1 (copyBytes_shape hcb) hr
+
+/-- When the collection was filled in the bump direction (`MutBumpVec` upwards, `MutBumpVecRev`
+    downwards) nothing has to be copied: finalising ALWAYS succeeds (no fault), returns the place
+    where the elements were written, only moves the position, and every byte of the arena — in
+    particular the elements — is what it was. -/
+theorem allocatePreparedSlice_nocopy (cfg : Cfg) (s : State) (ptr len cap esize ealign : Nat) (rev : Bool)
+    (i : Nat) (hcur : s.cur = .chunk i)
+    (hm : MinAlignOk s.minAlign) (hea : P2 ealign) (hes : ealign ∣ esize) (hp : ealign ∣ ptr)
+    (hdir : rev = !cfg.up)
+    (hfit : if rev then ptr < 2 ^ 64 else ptr + len * esize + 16 ≤ 2 ^ 64) :
+    allocatePreparedSlice cfg s ptr len cap esize ealign rev =
+      .ok (setCurPos s (commitPos cfg s.minAlign (commitAddr cfg ptr len cap esize rev) (len * esize)),
+           commitAddr cfg ptr len cap esize rev) ∧
+    commitAddr cfg ptr len cap esize rev = (if rev then ptr - len * esize else ptr) ∧
+    ∀ x, readByte (setCurPos s (commitPos cfg s.minAlign (commitAddr cfg ptr len cap esize rev) (len * esize))) x =
+      readByte s x := by
+  have hd1 : ealign ∣ len * esize := Nat.dvd_trans hes (Nat.dvd_mul_left esize len)
+  refine ⟨?_, ?_, fun x => readByte_setCurPos s _ x⟩
+  · unfold allocatePreparedSlice commitAddr commitPos
+    simp only [hcur]
+    cases hup : cfg.up
+    · rw [hup] at hdir
+      simp only [Bool.not_false] at hdir
+      subst hdir
+      simp only [↓reduceIte] at hfit
+      simp only [Bool.not_true, Bool.false_eq_true, ↓reduceIte]
+      rw [setPosAlignFrom_down hup hm hea (Nat.dvd_sub hp hd1) (by omega)]
+      rfl
+    · rw [hup] at hdir
+      simp only [Bool.not_true] at hdir
+      subst hdir
+      simp only [Bool.false_eq_true, ↓reduceIte] at hfit
+      simp only [Bool.not_false, ↓reduceIte]
+      rw [setPosAlignFrom_up hup hm hea ((Nat.dvd_add_right hp).2 hd1) (by omega)]
+      rfl
+  · unfold commitAddr
+    cases hup : cfg.up <;> rw [hup] at hdir <;> subst hdir <;> rfl
+
+/-- TARGET (not proved here): in the two remaining combinations the elements are moved by one
+    `ptr::copy`; the finalised slice then holds exactly the bytes that were written.  Needs the
+    read-after-write law of `copyBytes` (chunks pairwise disjoint, source and destination inside the
+    content range of the current chunk), which belongs to the memory lemmas. -/
+def allocatePreparedSlice_contents_target : Prop :=
+  ∀ (cfg : Cfg) (s s' : State) (ptr len cap esize ealign a : Nat) (rev : Bool),
+    (∀ (j k : Nat) (cj ck : Chunk), s.chunks[j]? = some cj → s.chunks[k]? = some ck → j ≠ k →
+      cj.base + cj.size ≤ ck.base ∨ ck.base + ck.size ≤ cj.base) →
+    allocatePreparedSlice cfg s ptr len cap esize ealign rev = .ok (s', a) →
+    ∀ k, k < len * esize →
+      readByte s' (a + k) = readByte s ((if rev then ptr - len * esize else ptr) + k)
+
+/-! ## Non-vacuity: the hypotheses hold on concrete states (`Lemmas/CtrlEx.lean`) -/
+
+/-- a prepare that has to move on to the second chunk (slow path) -/
+example : ∃ s' r, allocGeneric wCfg .range wState { size := 64, align := 8 } Hints.array Hints.array = .ok (s', .ok r) ∧
+    s'.cur = .chunk 1 := ⟨_, _, rfl, rfl⟩
+
+/-- a collection: created, filled, finalised / abandoned -/
+example : ∃ g1 o1 g2 o2 g3 o3, stepCore wCfg ⟨exUp, []⟩ (.prepareSlice 8 8 4 false) = .ok (g1, o1) ∧
+    stepCore wCfg g1 (.fillPrepared 2 0) = .ok (g2, o2) ∧ stepCore wCfg g2 (.commitSlice 2) = .ok (g3, o3) ∧
+    stepCore wCfg g2 .abandonPrepared = .ok ({ g2 with s := { g2.s with prepared := none } }, .unit) :=
+  ⟨_, _, _, _, _, _, rfl, rfl, rfl, rfl⟩
+
+/-- upwards, forward: 2 of 4 prepared 8-byte elements are kept -/
+example : ∃ s', allocatePreparedSlice wCfg exUp 0x10040 2 4 8 8 false = .ok (s', 0x10040) ∧
+    curPos wCfg s' = commitPos wCfg 8 0x10040 16 :=
+  ⟨_, rfl, (allocatePreparedSlice_position wCfg exUp _ 0x10040 2 4 8 8 0x10040 false 0 exChunkUp rfl rfl minAlign8
+    ⟨3, rfl⟩ ⟨1, rfl⟩ ⟨0x2008, by decide⟩ (by decide) (by decide) rfl).1⟩
+
+/-- downwards, forward: the 2 elements are copied to the end of the prepared area -/
+example : ∃ s', allocatePreparedSlice dCfg exDown 0x10080 2 8 8 8 false = .ok (s', 0x100B0) ∧
+    curPos dCfg s' = commitPos dCfg 8 0x100B0 16 :=
+  ⟨_, rfl, (allocatePreparedSlice_position dCfg exDown _ 0x10080 2 8 8 8 0x100B0 false 0 exChunkDown rfl rfl minAlign8
+    ⟨3, rfl⟩ ⟨1, rfl⟩ ⟨0x2010, by decide⟩ (by decide) (by decide) rfl).1⟩
+
+example : allocatePreparedSlice wCfg exUp 0x10040 2 4 8 8 false =
+    .ok (setCurPos exUp (commitPos wCfg 8 (commitAddr wCfg 0x10040 2 4 8 false) 16), commitAddr wCfg 0x10040 2 4 8 false) :=
+  (allocatePreparedSlice_nocopy wCfg exUp 0x10040 2 4 8 8 false 0 rfl minAlign8 ⟨3, rfl⟩ ⟨1, rfl⟩ ⟨0x2008, by decide⟩
+    rfl (by decide)).1
+
+example : ∃ s', allocatePrepared wCfg exUp 16 0x10040 0x10100 false = .ok (s', 0x10040) := ⟨_, rfl⟩
 
 end C15
